@@ -50,6 +50,20 @@ Fixpoint auth_conf_exposed (cs : list string) : bool :=
       || auth_conf_exposed rest
   end.
 
+(** the connection configuration objects (namedtuple IkeConfiguration, which CONTAINS the authentication
+    configuration; the dictionary of all of them): interpolating one as a whole - the name itself, or a call on it
+    such as values() / items() / get() / copy() - exposes the credentials through its repr; an attribute such as
+    .dpd or .my_auth.id does not (my_auth / peer_auth are judged by [auth_conf_exposed]) *)
+Definition is_call (c : string) : bool := negb (String.eqb (strip_call c) c).
+Fixpoint conf_exposed (cs : list string) : bool :=
+  match cs with
+  | [] => false
+  | c :: rest =>
+      (mem (strip_call c) ["configuration"; "ike_conf"; "ike_configurations"; "ike_configuration"; "ipsec_conf"] &&
+       match rest with n :: _ => is_call n | [] => true end)
+      || conf_exposed rest
+  end.
+
 Definition base_tainted (file n : string) : bool :=
   existsb (secret_component file) (components n) || auth_conf_exposed (components n).
 
@@ -90,15 +104,16 @@ Definition tainted_vars (file func : string) : list string :=
   let fa := filter (in_func file func) assigns in
   iterate (List.length fa) file fa [].
 
-Definition name_tainted (file func n : string) : bool := tainted_wrt file (tainted_vars file func) n.
+(** [conf_exposed] is judged on the interpolated name itself only (passing a configuration object on to a
+    constructor, as in IkeSa(..., configuration=ike_conf), exposes nothing) *)
+Definition name_tainted (file func n : string) : bool :=
+  tainted_wrt file (tainted_vars file func) n || conf_exposed (components n).
 
 Definition site_tainted (s : log_site) : bool :=
-  let T := tainted_vars (ls_file s) (ls_func s) in
-  existsb (tainted_wrt (ls_file s) T) (ls_names s).
+  existsb (name_tainted (ls_file s) (ls_func s)) (ls_names s).
 
 Definition raise_tainted (r : raise_site) : bool :=
-  let T := tainted_vars (rs_file r) (rs_func r) in
-  existsb (tainted_wrt (rs_file r) T) (rs_names r).
+  existsb (name_tainted (rs_file r) (rs_func r)) (rs_names r).
 
 (** the decision procedures the theorems lift *)
 Definition site_ok (s : log_site) : bool := Z.ltb (ls_level s) INFO || negb (site_tainted s).
